@@ -81,6 +81,11 @@ func (ir *implRun) deliver(ti, slot, id int, ctx context.Context) {
 	if sc == 0 || ir.depth.Get() >= maxNest {
 		return
 	}
+	if sc == scriptPanics {
+		// delivered (recorded above), then the handler panics; the bus recovers it and
+		// nothing else changes - in particular not what this handler is given next
+		panic("scripted handler panics")
+	}
 	ir.depth.Inc()
 	for _, so := range scriptOps(sc, ty, slot, id, ctx != nil) {
 		ir.do(so)
